@@ -91,6 +91,9 @@ class Result:
         self.stderr_full = ""
         self.wall = 0.0
 
+    def logs_nonempty(self):
+        return any(self.logs)
+
     # -- convenience views
     def ret(self, rank):
         """{line: R-event} for rank"""
@@ -121,6 +124,24 @@ MPIEXEC = ["mpiexec", "--oversubscribe", "--mca", "io", "romio321", "--mca", "bt
 
 
 def run_case(case, bld, workdir, keep=False, extra_env=None):
+    """one case; a launch that fails because the driver binary is being relinked by a concurrent bin/vbuild is a
+    harness hiccup, not an observation: wait for the build lock and launch again"""
+    for attempt in range(4):
+        res = _run_case(case, bld, workdir, keep, extra_env)
+        if res.rc not in (0, None) and not res.logs_nonempty() and "could not access\nor execute an executable" in (res.stderr_full or ""):
+            try:
+                import fcntl
+                with open(bld + ".lock", "a") as lf:
+                    fcntl.flock(lf, fcntl.LOCK_SH)
+            except OSError:
+                pass
+            time.sleep(1 + attempt)
+            continue
+        break
+    return res
+
+
+def _run_case(case, bld, workdir, keep=False, extra_env=None):
     outdir = os.path.join(workdir, case.name)
     shutil.rmtree(outdir, ignore_errors=True)
     os.makedirs(outdir)
@@ -130,6 +151,8 @@ def run_case(case, bld, workdir, keep=False, extra_env=None):
     for rel, content in (getattr(case, "files", None) or {}).items():
         with open(os.path.join(outdir, rel), "wb") as f:
             f.write(content)
+    tmpd = os.path.join(outdir, "t")
+    os.makedirs(tmpd, exist_ok=True)
     spath = os.path.join(outdir, "script")
     with open(spath, "w") as f:
         f.write(case.script_text().replace("@OUT@", outdir))
@@ -137,7 +160,10 @@ def run_case(case, bld, workdir, keep=False, extra_env=None):
     env.update({"OMPI_ALLOW_RUN_AS_ROOT": "1", "OMPI_ALLOW_RUN_AS_ROOT_CONFIRM": "1",
                 "ASAN_OPTIONS": "detect_leaks=0:abort_on_error=1:log_path=%s/asan:allocator_may_return_null=1:max_allocation_size_mb=2048" % outdir,
                 "UBSAN_OPTIONS": "print_stacktrace=1:halt_on_error=1:log_path=%s/ubsan" % outdir,
-                "OMPI_MCA_rmaps_base_oversubscribe": "1", "TMPDIR": "/dev/shm"})
+                "OMPI_MCA_rmaps_base_oversubscribe": "1", "TMPDIR": tmpd,
+                # session directory and shared-memory segments live inside the case directory, so that a case killed by
+                # the watchdog leaves nothing behind in /dev/shm once its directory is removed
+                "OMPI_MCA_btl_vader_backing_directory": tmpd, "OMPI_MCA_orte_tmpdir_base": tmpd})
     for k in ("PNETCDF_SAFE_MODE", "PNETCDF_HINTS", "PNETCDF_VERBOSE_DEBUG_MODE"):
         env.pop(k, None)
     env.update(case.env)
